@@ -10,6 +10,7 @@ import (
 	"reflect"
 	"strings"
 	"sync"
+	"time"
 
 	"github.com/fullstorydev/grpchan"
 	tpb "github.com/fullstorydev/grpchan/grpchantesting"
@@ -210,12 +211,15 @@ func (l c16Layer) streamInt(log *c16log, seen *[]observed) grpc.StreamServerInte
 		log.add("enter %s %s cs=%v ss=%v", l.name, info.FullMethod, info.IsClientStream, info.IsServerStream)
 		*seen = append(*seen, observed{layer: l.name, server: srv, trail: c16Trail(ss.Context())})
 		switch l.beh {
-		case bShort:
+		case bShort, bFail:
+			// an interceptor that answers by itself, with response metadata, without reading any request
+			ss.SetHeader(metadata.Pairs("c16-by", l.name))
+			ss.SetTrailer(metadata.Pairs("c16-by", l.name))
 			log.add("exit %s", l.name)
+			if l.beh == bFail {
+				return errC16Fail
+			}
 			return nil
-		case bFail:
-			log.add("exit %s", l.name)
-			return errC16Fail
 		}
 		ss = c16CtxStream{ss, context.WithValue(ss.Context(), c16TrailKey{}, append(c16Trail(ss.Context()), l.name))}
 		err := handler(srv, ss)
@@ -366,8 +370,14 @@ func checkC16(e *core.Env) {
 		switch carrier {
 		case "inproc":
 			ch := &inprocgrpc.Channel{}
-			ch.WithServerUnaryInterceptor(tu).WithServerStreamInterceptor(ts)
-			ch.RegisterService(final, svc)
+			if r.Intn(2) == 0 {
+				ch.WithServerUnaryInterceptor(tu).WithServerStreamInterceptor(ts)
+				ch.RegisterService(final, svc)
+			} else {
+				// configured after the services were registered: the interceptors apply all the same
+				ch.RegisterService(final, svc)
+				ch.WithServerUnaryInterceptor(tu).WithServerStreamInterceptor(ts)
+			}
 			cc = ch
 		case "http":
 			// mounted at the root or below it: the interceptors are told the method name, not the URL path
@@ -575,22 +585,42 @@ func checkC16(e *core.Env) {
 					// describe the method by its registered flags
 					cdesc = &grpc.StreamDesc{ClientStreams: true, ServerStreams: true}
 				}
-				st, serr := cc.NewStream(ctx, cdesc, full)
-				err = serr
-				if serr == nil {
-					st.SendMsg(&tpb.Message{Payload: []byte("req")})
-					st.CloseSend()
-					m := new(tpb.Message)
-					err = st.RecvMsg(m)
-					if err == nil {
-						got1 = m
-						if cdesc.ServerStreams {
-							err = st.RecvMsg(new(tpb.Message))
+				callDone := make(chan struct{})
+				go func() {
+					defer close(callDone)
+					st, serr := cc.NewStream(ctx, cdesc, full)
+					err = serr
+					if serr == nil {
+						st.SendMsg(&tpb.Message{Payload: []byte("req")})
+						if o.ClientStreams {
+							// a client that has more to say before it listens
+							st.SendMsg(&tpb.Message{Payload: []byte("req2")})
+							st.SendMsg(&tpb.Message{Payload: []byte("req3")})
+						}
+						st.CloseSend()
+						m := new(tpb.Message)
+						err = st.RecvMsg(m)
+						if err == nil {
+							got1 = m
+							if cdesc.ServerStreams {
+								err = st.RecvMsg(new(tpb.Message))
+							}
+						}
+						if err == io.EOF {
+							err = nil
 						}
 					}
-					if err == io.EOF {
-						err = nil
+				}()
+				if fin, stuck, dump := waitDoneOrStuck(callDone, 60*time.Second); !fin {
+					cancel()
+					<-callDone
+					log.take()
+					if stuck {
+						viol("hang/stream", full+": the call did not finish: client and server are parked for good\n"+trunc(dump, 3000), nil)
+					} else {
+						e.Inconclusive("C16 %s: call still running after 60 s", full)
 					}
+					return
 				}
 				cancel()
 			}
